@@ -3,11 +3,13 @@ SPECIFICATION TSpec
 CONSTANTS
   Rcpts = {"ra", "rb", "rc"}
   NTs = {1, 2, 3}
+  Lmtps = {TRUE, FALSE}
+  Holds = {TRUE, FALSE}
   Fails = {"temp", "perm"}
   MaxFaults = 1000
   MaxCmds = 1000
   Allowed = {"*"}
-  Devs = {"DataFailNoAbort", "CommitStopsAtFirst", "LmtpStatusKey", "EhloNoLogout", "MailRawSender", "NestedMail", "LmtpCommitErrLost"}
+  Devs = {"DataFailNoAbort", "CommitStopsAtFirst", "LmtpStatusKey", "EhloNoLogout", "MailRawSender", "NestedMail", "LmtpCommitErrLost", "LmtpCommitAfterReject"}
   Gen = FALSE
 CHECK_DEADLOCK FALSE
 POSTCONDITION Post
